@@ -344,7 +344,10 @@ func (e *env) finish(quiet, grace time.Duration, shutdown func()) (toks []string
 				break
 			}
 			if time.Now().After(dl) {
-				k, where, parked, orphan := kafkaGoroutinesPO()
+				k, where, parked, orphan, stuck := kafkaCensus()
+				if stuck {
+					e.ft.add("stuck-refresh")
+				}
 				if parked {
 					e.ft.add("parked-in-promise")
 				}
